@@ -147,6 +147,7 @@ def run(ctx):
     docs_once(ctx, fns)
     no_reach_through(ctx, fns)
     no_text_guards(ctx, fns)
+    declaration_order(ctx, fns)
     doc_line_normal_form(ctx, fns)
 
 
@@ -211,6 +212,49 @@ def no_text_guards(ctx, fns):
                    "`%s` decides what to print by comparing two source texts: a clause the tree has is omitted when the texts happen to be equal (the re-parsed tree differs)" % f.id.rsplit("::", 1)[-1],
                    site="%s in %s" % (t.span, f.id))
     ctx.ob("R13.10", "text-guard-scan", True, "string comparisons in the printer: %d" % n, nontrivial=False)
+
+
+def declaration_order(ctx, fns):
+    """R13.11: the AST declares the parts of a construct in the order the grammar writes them (`ok` before `err`, `id` before
+    `ty`, …) and the printer emits them in that order: when two printer calls in one method print two different fields of
+    the same node and one call dominates the other, the dominating call prints the field declared first."""
+    db, prov = ctx.db, ctx.prov
+    n = 0
+    for f in fns:
+        if "{closure" in f.id:
+            continue
+        cfg = CFG(f)
+        sites = []
+        for t in f.calls():
+            if not (t.path or "").startswith(PR) or len(t.args) < 2:
+                continue
+            for a in t.args[1:]:
+                if a.place is None:
+                    continue
+                for (nm, o, v) in narrow(prov, f, a).fields:
+                    if o.startswith(AST) and o in db.adts:
+                        vs = [x for x in db.adts[o]["variants"] if x["name"] == v or len(db.adts[o]["variants"]) == 1]
+                        if vs:
+                            names = [fl["name"] for fl in vs[0]["fields"]]
+                            if nm in names:
+                                sites.append((t, o, v, nm, names.index(nm)))
+        for i, (t1, o1, v1, n1, k1) in enumerate(sites):
+            for (t2, o2, v2, n2, k2) in sites[i + 1:]:
+                if (o1, v1) != (o2, v2) or n1 == n2 or t1.bb == t2.bb:
+                    continue
+                if cfg.dominates(t1.bb, t2.bb):
+                    a, b, first = (n1, k1), (n2, k2), t1
+                elif cfg.dominates(t2.bb, t1.bb):
+                    a, b, first = (n2, k2), (n1, k1), t2
+                else:
+                    continue
+                n += 1
+                if a[1] > b[1]:
+                    ctx.ob("R13.11", "order|%s|%s::%s" % (f.id.rsplit("::", 1)[-1], o1.split("::")[-1], v1), False,
+                           "`%s` prints `%s` before `%s` although %s%s declares (and the grammar writes) `%s` first: the re-parsed tree has the two exchanged"
+                           % (f.id.rsplit("::", 1)[-1], a[0], b[0], o1.split("::")[-1], "::" + v1 if v1 != o1.split("::")[-1] else "", b[0]),
+                           site="%s in %s" % (first.span, f.id))
+    ctx.ob("R13.11", "order", n >= 30, "ordered pairs of printed fields checked: %d" % n)
 
 
 def docs_once(ctx, fns):
